@@ -410,7 +410,7 @@ pub fn run(ctx: &Ctx) -> (Report, PropertyMeta) {
     let r = run_cases(ctx, "cancel", &cases, cancel_outcome);
     report.exhaustive_parts.push(format!("7 socket types x every delivery prefix of one 3-frame message x 0..4 polls before the drop x (one or two abandoned recv calls), REQ followed by an out-of-turn send: {} cases", cases.len()));
     report.merge(r);
-    let n = t.pick(5000, 200_000);
+    let n = t.pick(60_000, 1_000_000);
     let r = run_random(ctx, "cancel", n, 60..=300, gen_cancel, cancel_outcome);
     report.sections.push(json!({"part": "random scripts: 1..3 peers, byte-wise delivery, recv polled k times and dropped at generated points, repeatedly", "cases": n}));
     report.merge(r);
